@@ -412,10 +412,91 @@ pub fn c06_instances(tier: Tier) -> Vec<Instance> {
     out
 }
 
+/// One connection with more than 2^16 keep-alives and more than 2^16 writes (run before the search of C06 and C07;
+/// a failure is reported at once).  Some(code) = stop with that exit code.
+fn count_precheck(prop: &str, replay: &Option<String>) -> Option<i32> {
+    use rayon::prelude::*;
+    use super::longsession as ls;
+    let report = |c: &ls::CountCase, what: &str| -> i32 {
+        let path = format!("/verif/replays/{prop}/{}.json", c.label().replace('#', "-"));
+        println!("VIOLATION property={prop} replay={path}");
+        println!("  signature: {prop}|many-keep-alives-and-writes|{}", if c.tokio { "tokio" } else { "blocking" });
+        println!("  witness:   {}: {what}", c.label());
+        let _ = std::fs::create_dir_all(format!("/verif/replays/{prop}"));
+        let _ = std::fs::write(&path, json!({"property": prop, "site": "many-keep-alives-and-writes", "tokio": c.tokio, "compressed": c.compressed}).to_string());
+        1
+    };
+    if let Some(path) = replay {
+        let v = std::fs::read_to_string(path).ok().and_then(|s| serde_json::from_str::<serde_json::Value>(&s).ok())?;
+        if v["site"] != "many-keep-alives-and-writes" { return None; }
+        let c = ls::CountCase { tokio: v["tokio"].as_bool().unwrap_or(false), compressed: v["compressed"].as_bool().unwrap_or(true) };
+        return Some(match crate::report::guard(|| ls::run_count(&c)) {
+            Ok(Ok(n)) => { println!("replay: {n} results in order, outbound exact - held"); 0 },
+            Ok(Err(e)) if e.starts_with("MACHINERY") => { eprintln!("{e}"); 4 },
+            Ok(Err(e)) => report(&c, &e),
+            Err(p) => report(&c, &format!("panicked: {p}")),
+        });
+    }
+    let cases = ls::count_cases();
+    let results: Vec<Result<Result<u64, String>, String>> = cases.par_iter().map(|c| crate::report::guard(|| ls::run_count(c))).collect();
+    for (c, r) in cases.iter().zip(results) {
+        match r {
+            Ok(Ok(_)) => {},
+            Ok(Err(e)) if e.starts_with("MACHINERY") => { eprintln!("{e}"); return Some(4); },
+            Ok(Err(e)) => return Some(report(c, &e)),
+            Err(p) => return Some(report(c, &format!("panicked: {p}"))),
+        }
+    }
+    None
+}
+
+/// Writes that really take hundreds of transport calls (the search merges them away): one execution each.
+fn dribble_precheck(replay: &Option<String>) -> Option<i32> {
+    use rayon::prelude::*;
+    use super::longsession as ls;
+    let cases = ls::dribble_cases();
+    let report = |idx: usize, c: &ls::DribbleCase, what: &str| -> i32 {
+        let path = format!("/verif/replays/C06/dribble-writes-{idx}.json");
+        println!("VIOLATION property=C06 replay={path}");
+        println!("  signature: C06|dribble-writes|{}|{}", if c.tokio { "tokio" } else { "blocking" }, c.name);
+        println!("  witness:   {}: {what}", c.label());
+        let _ = std::fs::create_dir_all("/verif/replays/C06");
+        let _ = std::fs::write(&path, json!({"property": "C06", "site": "dribble-writes", "index": idx, "case": c.label()}).to_string());
+        1
+    };
+    if let Some(path) = replay {
+        let v = std::fs::read_to_string(path).ok().and_then(|s| serde_json::from_str::<serde_json::Value>(&s).ok())?;
+        if v["site"] != "dribble-writes" { return None; }
+        let idx = v["index"].as_u64().unwrap_or(0) as usize;
+        let c = cases.get(idx)?;
+        return Some(match crate::report::guard(|| ls::run_dribble(c)) {
+            Ok(Ok(n)) => { println!("replay: {} - both frames whole after {n} transport calls - held", c.label()); 0 },
+            Ok(Err(e)) if e.starts_with("MACHINERY") => { eprintln!("{e}"); 4 },
+            Ok(Err(e)) => report(idx, c, &e),
+            Err(p) => report(idx, c, &format!("panicked: {p}")),
+        });
+    }
+    let results: Vec<Result<Result<u64, String>, String>> = cases.par_iter().map(|c| crate::report::guard(|| ls::run_dribble(c))).collect();
+    for (idx, (c, r)) in cases.iter().zip(results).enumerate() {
+        match r {
+            Ok(Ok(_)) => {},
+            Ok(Err(e)) if e.starts_with("MACHINERY") => { eprintln!("{e}"); return Some(4); },
+            Ok(Err(e)) => return Some(report(idx, c, &e)),
+            Err(p) => return Some(report(idx, c, &format!("panicked: {p}"))),
+        }
+    }
+    eprintln!("C06 dribble-writes: {} executions", cases.len());
+    None
+}
+
 pub fn c06(tier: Tier, replay: Option<String>) -> i32 {
+    if let Some(code) = count_precheck("C06", &replay) { return code; }
+    if let Some(code) = dribble_precheck(&replay) { return code; }
     finish("C06", tier, replay, c06_instances(tier),
         "instances = (mode, implementation, packet sequence of length <= 2 (quick) / <= 3 (thorough) over {TINY 4 B, SMALL 8 B, MSO 12 B, MST 68 B, MCI 228 B}); at every transport write call every acceptance k in 1..=offered (offered <= 12) or {1,2,3,4,n/2,n-1,n}; not ready (tokio Pending / blocking Interrupted, <= 2) and 30 s clock steps (tokio, <= 2); plus every kind's B1 packet and the largest frames of every counted kind (up to 1016 B) followed by a TINY; oracle on every transition: outbound bytes are a prefix of the concatenated frames and complete when write() returns Ok",
-        vec!["the expected frames come from Codec::encode (judged by C01-C03)".into()])
+        vec!["the expected frames come from Codec::encode (judged by C01-C03)".into(),
+            "many-keep-alives-and-writes (4 connections, one execution each, before the search): 175 000 frames in with 70 000 keep-alives, 105 000 writes; the transport must have received exactly the replies and the written frames in call order".into(),
+            "dribble-writes (one execution each, before the search): every kind's B1 packet and the largest frames of every counted kind (252, ~600, 1016 bytes, the protocol maximum) through a transport that takes 1 / 2 / 3 / 7 bytes per call all the way, or 1 byte with 'not ready' before every call - the search itself merges states on the bytes written and so executes only the shortest way to each".into()])
 }
 
 // ---------------------------------------------------------------------------------------------
@@ -531,9 +612,11 @@ pub fn c07_instances(tier: Tier) -> Vec<Instance> {
 }
 
 pub fn c07(tier: Tier, replay: Option<String>) -> i32 {
+    if let Some(code) = count_precheck("C07", &replay) { return code; }
     finish("C07", tier, replay, c07_instances(tier),
         "instances: (a) every single TINY (32 sub-type bytes x request ids; quick: all 256 ids for sub-type 0 and 6 ids for the others), whole and byte by byte; (b) every kind's B1 frame between two keep-alives; (c) all sequences of length <= 3/4 over {keep-alive, TINY_NONE reqi 1, TINY_PING reqi 0, SMALL, MSO} with every partition, and with the 4-byte reply split / delayed on the write side; oracle: outbound = one pong per keep-alive handed over, accepted before the hand-over, nothing else",
-        vec!["short writes on the blocking write side rely on C06's property (write_all)".into()])
+        vec!["short writes on the blocking write side rely on C06's property (write_all)".into(),
+            "many-keep-alives-and-writes (4 connections, one execution each, before the search): 70 000 keep-alives on one connection, interleaved with writes; exactly 70 000 replies, each in its place".into()])
 }
 
 // ---------------------------------------------------------------------------------------------
